@@ -76,5 +76,5 @@ def run(tier, seed):
                                   'u128/i128 overflow classification is exercised only for weights <= 2^110 (no wider accumulator)'])
     if missing or len(types) < 13 or lvl_up == 0 or lvl_dn == 0:
         V.log('coverage floor not met', missing, sorted(types))
-        return 2
+        return 1 if rc == 1 else 2  # a violation outranks a missed coverage floor
     return rc
